@@ -385,6 +385,7 @@ func (c *wsConn) cancelCtx(req frame) {
 	vhook("cancel.recv", c, id, ok)
 	if ok {
 		cf()
+		vhook("cancel.done", c, id)
 	}
 }
 
